@@ -20,10 +20,16 @@
 (*   MetaLast     : CreateTable makes the table visible to recovery        *)
 (*                  (metadata rename) after its empty database exists      *)
 (*                  (intended) / before it clears a stale directory        *)
+(*   AtomicFamilyDrop : dropping a column family purges its cells and      *)
+(*                  publishes the new schema as one recoverable unit       *)
+(*                  (intended: e.g. recovery completes the purge) / the    *)
+(*                  rows are purged first and the schema file is written   *)
+(*                  afterwards (FALSE: what the repository does -- known   *)
+(*                  finding Dev_FamilyDropTornByCrash)                     *)
 (***************************************************************************)
 EXTENDS Naturals, FiniteSets, TLC
 
-CONSTANTS Tables, Keys, MaxReqs, MaxCrashes, DeleteOnDisk, MetaLast
+CONSTANTS Tables, Keys, MaxReqs, MaxCrashes, DeleteOnDisk, MetaLast, AtomicFamilyDrop
 
 VARIABLES up, mem, disk, acked, cur, nreq, ncrash
 vars == <<up, mem, disk, acked, cur, nreq, ncrash>>
@@ -42,6 +48,7 @@ Issue == /\ up /\ cur.k = "idle" /\ nreq < MaxReqs /\ nreq' = nreq + 1
          /\ \E t \in Tables :
               \/ t \notin DOMAIN mem /\ cur' = [k |-> "create", t |-> t, pc |-> 1]
               \/ t \in DOMAIN mem /\ cur' = [k |-> "modify", t |-> t, pc |-> 1]
+              \/ t \in DOMAIN mem /\ cur' = [k |-> "dropfam", t |-> t, pc |-> 1]
               \/ t \in DOMAIN mem /\ \E key \in Keys : cur' = [k |-> "put", t |-> t, key |-> key, pc |-> 1]
               \/ t \in DOMAIN mem /\ \E key \in Keys : cur' = [k |-> "delrow", t |-> t, key |-> key, pc |-> 1]
               \/ t \in DOMAIN mem /\ cur' = [k |-> "clear", t |-> t, pc |-> 1]
@@ -70,6 +77,19 @@ StepModify ==
      CASE cur.pc = 1 -> mem' = [mem EXCEPT ![t].ver = v] /\ cur' = [cur EXCEPT !.pc = 2] /\ UNCHANGED <<disk, acked>>
        [] cur.pc = 2 -> disk' = [disk EXCEPT !.meta = Put(@, t, mem[t].ver)] /\ cur' = [cur EXCEPT !.pc = 3] /\ UNCHANGED <<mem, acked>>
        [] OTHER -> Ack([acked EXCEPT ![t].ver = mem[t].ver], mem) /\ UNCHANGED disk
+\* ModifyColumnFamilies(drop): the rows lose the family's cells (here: the family holds all cells of the table, so the
+\* rows go), and the schema changes. Code order: purge the rows in the database, then tmp file + rename.
+StepDropFam ==
+  /\ up /\ cur.k = "dropfam" /\ Same
+  /\ LET t == cur.t  v == mem[t].ver + 1 IN
+     IF AtomicFamilyDrop
+     THEN CASE cur.pc = 1 -> /\ disk' = [disk EXCEPT !.db = Put(@, t, {}), !.meta = Put(@, t, v)] /\ mem' = [mem EXCEPT ![t] = T(v, {})]
+                             /\ cur' = [cur EXCEPT !.pc = 2] /\ UNCHANGED acked
+            [] OTHER -> Ack([acked EXCEPT ![t] = T(mem[t].ver, {})], mem) /\ UNCHANGED disk
+     ELSE CASE cur.pc = 1 -> /\ disk' = [disk EXCEPT !.db = Put(@, t, {})] /\ mem' = [mem EXCEPT ![t] = T(v, {})]
+                             /\ cur' = [cur EXCEPT !.pc = 2] /\ UNCHANGED acked
+            [] cur.pc = 2 -> disk' = [disk EXCEPT !.meta = Put(@, t, mem[t].ver)] /\ cur' = [cur EXCEPT !.pc = 3] /\ UNCHANGED <<mem, acked>>
+            [] OTHER -> Ack([acked EXCEPT ![t] = T(mem[t].ver, {})], mem) /\ UNCHANGED disk
 \* a row write / row delete: one atomic put / delete in the table's database
 StepRow ==
   /\ up /\ cur.k \in {"put", "delrow"} /\ Same
@@ -102,6 +122,7 @@ Recovered == [t \in DOMAIN disk.meta |-> T(disk.meta[t], IF t \in DOMAIN disk.db
 WithInflight ==
   CASE cur.k = "create"   -> Put(acked, cur.t, T(1, {}))
     [] cur.k = "modify"   -> [acked EXCEPT ![cur.t].ver = @ + 1]
+    [] cur.k = "dropfam"  -> [acked EXCEPT ![cur.t] = T(@.ver + 1, {})]
     [] cur.k = "put"      -> [acked EXCEPT ![cur.t].rows = @ \cup {cur.key}]
     [] cur.k = "delrow"   -> [acked EXCEPT ![cur.t].rows = @ \ {cur.key}]
     [] cur.k = "clear"    -> [acked EXCEPT ![cur.t].rows = {}]
@@ -112,7 +133,7 @@ Recover == /\ ~up /\ up' = TRUE /\ mem' = Recovered
            /\ acked' = Recovered /\ cur' = Idle
            /\ UNCHANGED <<disk, nreq, ncrash>>
 
-Next == Issue \/ StepCreate \/ StepModify \/ StepRow \/ StepClear \/ StepDelTable \/ Crash \/ Recover
+Next == Issue \/ StepCreate \/ StepModify \/ StepDropFam \/ StepRow \/ StepClear \/ StepDelTable \/ Crash \/ Recover
 Spec == Init /\ [][Next]_vars
 
 \* C08: whenever the process is down, what recovery would serve is the acknowledged state, the in-flight request
